@@ -4,180 +4,211 @@ import PlumVerif.Proofs.Entry
 C10 — one device object per controller address, for every arrival timing.
 Property theorems only; the machine is Model/Entry.lean, the invariant Proofs/Entry.lean.
 
-All theorems about the locked machine (`step true`) hold for EVERY assignment `kind` of
-callers to {frame consumer, user get()}, EVERY number of callers and EVERY interleaving
-`sched : List Nat` (which caller moves next; the completion of the thread-pool class loading
-is the move of the caller that is in `creating`, so "every arrival timing relative to the
-class loading" is part of the quantifier).
+All theorems about the locked machine (`step true`) hold for EVERY description `who` of the
+callers (frame consumer or user get(), for whichever address), EVERY number of callers and
+addresses, EVERY set `cr` of addresses that have a device class, and EVERY interleaving
+`sched : List Nat` (which caller moves next; the completion — or failure — of the thread-pool
+class loading is the move of the caller that is in `creating`, so "every arrival timing
+relative to the class loading" is part of the quantifier).
 -/
 namespace PlumVerif.C10
 open PlumVerif PlumVerif.Entry
 
-/-- **C10**: under every interleaving
- * at most one device object is created, set-up is started exactly as often as a device is
-   created, the name is dispatched at most once and only with that object;
- * every caller that has returned — a consumer (`done`) or a user `get()` (`got`) — holds
-   object 0, which is the published entry, created once, set-up started once;
- * every frame handled so far was handled by that object, each frame at most once, and a
-   consumer has returned iff its frame is in the handled log. -/
-theorem single_device (kind : Nat → Kind) (sched : List Nat) :
-    let s := run true kind init sched
-    s.created ≤ 1 ∧ s.setups = s.created ∧ s.dispatched.length ≤ s.created ∧ (∀ d ∈ s.dispatched, d = 0) ∧
-    (∀ j d, s.pc j = .done d ∨ s.pc j = .got d →
-        d = 0 ∧ s.published = some 0 ∧ s.created = 1 ∧ s.setups = 1) ∧
-    (∀ f d, (f, d) ∈ s.handled → d = 0 ∧ kind f = .entry ∧ s.pc f = .done 0) ∧
-    (s.handled.map (·.1)).Nodup ∧
-    (∀ j, s.pc j = .done 0 → (j, 0) ∈ s.handled) := by
-  have h := phase_run kind init sched (phase_init kind)
-  have quiet_ne : ∀ {p : PC} {d : Nat}, Quiet p → ¬ (p = .done d ∨ p = .got d) := by
-    intro p d hq hc
-    rcases hq with e | e <;> rcases hc with c | c <;> rw [e] at c <;> cases c
-  cases h with
-  | idle hl hc hs hp hd hh hpc =>
-    refine ⟨by omega, by omega, by simp [hd], by simp [hd], fun j d hj => absurd hj (quiet_ne (hpc j)),
-      by simp [hh], by simp [hh], fun j hj => absurd (.inl hj) (quiet_ne (hpc j))⟩
-  | creating h' hl hc hs hp hd hh hk hh' hpc =>
-    have nq : ∀ j d, ¬ ((run true kind init sched).pc j = .done d ∨ (run true kind init sched).pc j = .got d) := by
-      intro j d
-      by_cases e : j = h'
-      · subst e; simp [hh']
-      · exact quiet_ne (hpc j e)
-    refine ⟨by omega, by omega, by simp [hd], by simp [hd], fun j d hj => absurd hj (nq j d),
-      by simp [hh], by simp [hh], fun j hj => absurd (.inl hj) (nq j 0)⟩
-  | publishing h' hl hc hs hp hd hh hk hh' hpc =>
-    have nq : ∀ j d, ¬ ((run true kind init sched).pc j = .done d ∨ (run true kind init sched).pc j = .got d) := by
-      intro j d
-      by_cases e : j = h'
-      · subst e; simp [hh']
-      · exact quiet_ne (hpc j e)
-    refine ⟨by omega, by omega, by simp [hd], by simp [hd], fun j d hj => absurd hj (nq j d),
-      by simp [hh], by simp [hh], fun j hj => absurd (.inl hj) (nq j 0)⟩
-  | published hl hc hs hp hd hpc hh hn hdone =>
-    refine ⟨by omega, by omega, by simp [hd, hc], by simp [hd], ?_, ?_, hn, hdone⟩
-    · intro j d hj
-      refine ⟨?_, hp, hc, hs⟩
-      rcases hpc j with e | e | e | e <;> rcases hj with c | c <;> rw [e] at c <;> cases c <;> rfl
-    · intro f d hf
-      obtain ⟨h1, h2, h3⟩ := hh (f, d) hf
-      exact ⟨h1, h3, h2⟩
+/-- **C10 (per address)**: under every interleaving, for every address `a`
+ * at most one device object is created for it and its set-up is started exactly as often;
+ * once it has an entry `d`: it was created once, has a device class, and `d` belongs to no
+   other address; every announcement for `a` announced `d`, and `a` is announced at most once;
+ * every caller for `a` that has returned — a consumer (`done`) or a user `get()` (`got`) —
+   holds the entry of `a`; every handled frame was handled by the entry of its own address, each
+   frame at most once, and a consumer has returned iff its frame is in the handled log;
+ * a frame is dropped (`failed`) only if its address has no device class, and such an address
+   never gets an object or an entry. -/
+theorem per_address_single_device (who : Nat → Caller) (cr : Nat → Bool) (sched : List Nat) :
+    let s := run true who cr init sched
+    (∀ a, s.createdFor a ≤ 1 ∧ s.setupsFor a = s.createdFor a) ∧
+    (∀ a d, s.published a = some d → s.createdFor a = 1 ∧ cr a = true ∧ (a, d) ∈ s.dispatched ∧
+        ∀ b, s.published b = some d → b = a) ∧
+    (∀ p ∈ s.dispatched, s.published p.1 = some p.2) ∧ (s.dispatched.map (·.1)).Nodup ∧
+    (∀ j d, s.pc j = .done d ∨ s.pc j = .got d → s.published (who j).addr = some d) ∧
+    (∀ f d, (f, d) ∈ s.handled → s.pc f = .done d ∧ (who f).kind = .entry ∧ s.published (who f).addr = some d) ∧
+    (s.handled.map (·.1)).Nodup ∧ (∀ j d, s.pc j = .done d → (j, d) ∈ s.handled) ∧
+    (∀ j, s.pc j = .failed → cr (who j).addr = false) ∧
+    (∀ a, cr a = false → s.published a = none ∧ s.createdFor a = 0) := by
+  have h := inv_run who cr init sched (inv_init who cr)
+  generalize run true who cr init sched = s at h
+  have le1 : ∀ a, s.createdFor a ≤ 1 := by
+    intro a
+    cases hp : s.published a with
+    | some d => rw [(h.ids a d hp).2.1]; exact Nat.le_refl 1
+    | none =>
+      by_cases hx : ∃ k d, s.pc k = .publishing d ∧ (who k).addr = a
+      · obtain ⟨k, d, hk, ha⟩ := hx
+        rw [← ha, (h.pubId k d hk).2.1]; exact Nat.le_refl 1
+      · rw [h.zero a hp (fun k d hk ha => hx ⟨k, d, hk, ha⟩)]; omega
+  refine ⟨fun a => ⟨le1 a, h.setups a⟩, ?_, h.dispOk, h.dispNodup, h.holds, ?_, h.handledNodup, h.doneIn,
+    h.failedOk, ?_⟩
+  · intro a d ha
+    obtain ⟨_, h2, h3, _⟩ := h.ids a d ha
+    exact ⟨h2, h3, h.pubDisp a d ha, fun b hb => h.inj b a d hb ha⟩
+  · intro f d hf
+    obtain ⟨h1, h2⟩ := h.handledOk (f, d) hf
+    exact ⟨h1, h2, h.holds f d (.inl h1)⟩
+  · intro a ha
+    have hn : s.published a = none := by
+      cases hp : s.published a with
+      | none => rfl
+      | some d => have := (h.ids a d hp).2.2.1; rw [ha] at this; cases this
+    refine ⟨hn, h.zero a hn (fun k d hk hka => ?_)⟩
+    have := (h.pubId k d hk).2.2
+    rw [hka, ha] at this; cases this
 
-/-- "receives the same object at every time": whatever two callers obtained, at whatever
-two moments of a run (the second moment `more` steps after the first), they hold the same
-object — the one that is published at both moments. -/
-theorem same_object_at_every_time (kind : Nat → Kind) (sched more : List Nat) (j k d e : Nat)
-    (hj : (run true kind init sched).pc j = .done d ∨ (run true kind init sched).pc j = .got d)
-    (hk : (run true kind init (sched ++ more)).pc k = .done e ∨ (run true kind init (sched ++ more)).pc k = .got e) :
-    d = e ∧ (run true kind init sched).published = some d ∧
-      (run true kind init (sched ++ more)).published = some d := by
-  obtain ⟨_, _, _, _, h1, _⟩ := single_device kind sched
-  obtain ⟨_, _, _, _, h2, _⟩ := single_device kind (sched ++ more)
-  obtain ⟨rfl, p1, _⟩ := h1 j d hj
-  obtain ⟨rfl, p2, _⟩ := h2 k e hk
-  exact ⟨rfl, p1, p2⟩
+/-- the single-address reading of the statement: all callers for one address — consumers and
+user get()s — hold one and the same object, of which there is at most one -/
+theorem single_device (who : Nat → Caller) (cr : Nat → Bool) (sched : List Nat) (j k d e : Nat)
+    (hj : (run true who cr init sched).pc j = .done d ∨ (run true who cr init sched).pc j = .got d)
+    (hk : (run true who cr init sched).pc k = .done e ∨ (run true who cr init sched).pc k = .got e)
+    (ha : (who j).addr = (who k).addr) :
+    d = e ∧ (run true who cr init sched).createdFor (who j).addr = 1 ∧
+      (run true who cr init sched).setupsFor (who j).addr = 1 := by
+  obtain ⟨h1, h2, _, _, h5, _⟩ := per_address_single_device who cr sched
+  have pj := h5 j d hj
+  have pk := h5 k e hk
+  rw [← ha, pj] at pk
+  cases pk
+  exact ⟨rfl, (h2 _ d pj).1, by rw [(h1 _).2, (h2 _ d pj).1]⟩
 
-/-- "that object receives every frame": in every reachable state every frame consumer that
-has not finished can still finish within three moves (acquire/create, class loading
-completes, publish), and then its frame has been handled by object 0 — nothing a schedule
-does can leave a frame stuck or route it to another object. -/
-theorem always_handleable (kind : Nat → Kind) (sched : List Nat) (j : Nat) (hk : kind j = .entry) :
-    ∃ more : List Nat, more.length ≤ 3 ∧
-      (run true kind init (sched ++ more)).pc j = .done 0 ∧
-      (j, 0) ∈ (run true kind init (sched ++ more)).handled := by
-  have h := phase_run kind init sched (phase_init kind)
-  -- it is enough to reach `done 0`: the handled log then contains (j, 0) by `single_device`
-  suffices ∃ more : List Nat, more.length ≤ 3 ∧ (run true kind init (sched ++ more)).pc j = .done 0 by
-    obtain ⟨more, hl, hd⟩ := this
-    exact ⟨more, hl, hd, (single_device kind (sched ++ more)).2.2.2.2.2.2.2 j hd⟩
-  have hko := kindOk_run true kind init sched (kindOk_init kind) j hk
-  simp only [run_append]
-  generalize run true kind init sched = s at h hko
-  have start_of_quiet : Quiet (s.pc j) → s.pc j = .start := fun hq => hq.resolve_right hko.1
-  cases h with
-  | idle hl hc hs hp hd hh hpc =>
-    refine ⟨[j, j, j], by simp, ?_⟩
-    simp [run, step, start_of_quiet (hpc j), hk, hl, hp, hc]
-  | creating h' hl hc hs hp hd hh hk' hh' hpc =>
-    by_cases e : j = h'
-    · subst e
-      exact ⟨[j, j], by simp, by simp [run, step, hh', hc]⟩
-    · refine ⟨[h', h', j], by simp, ?_⟩
-      have hj := start_of_quiet (hpc j e)
-      simp [run, step, hh', hc, hj, hk, finish, upd_other _ _ _ _ e]
-  | publishing h' hl hc hs hp hd hh hk' hh' hpc =>
-    by_cases e : j = h'
-    · subst e
-      exact ⟨[j], by simp, by simp [run, step, hh']⟩
-    · refine ⟨[h', j], by simp, ?_⟩
-      have hj := start_of_quiet (hpc j e)
-      simp [run, step, hh', hj, hk, finish, upd_other _ _ _ _ e]
-  | published hl hc hs hp hd hpc hh hn hdone =>
-    rcases hpc j with e | e | e | e
-    · exact ⟨[j], by simp, by simp [run, step, e, hk, hl, hp, finish]⟩
-    · exact absurd e hko.1
-    · exact ⟨[], by simp, by simpa [run] using e⟩
-    · exact absurd e (hko.2 0)   -- a consumer never holds a get() result
+/-- **the two addresses do not interfere**: callers for different addresses never end up with
+the same object, whatever the interleaving of their creations under the shared lock -/
+theorem addresses_do_not_interfere (who : Nat → Caller) (cr : Nat → Bool) (sched : List Nat) (j k d e : Nat)
+    (hj : (run true who cr init sched).pc j = .done d ∨ (run true who cr init sched).pc j = .got d)
+    (hk : (run true who cr init sched).pc k = .done e ∨ (run true who cr init sched).pc k = .got e)
+    (ha : (who j).addr ≠ (who k).addr) : d ≠ e := by
+  obtain ⟨_, h2, _, _, h5, _⟩ := per_address_single_device who cr sched
+  intro hde
+  subst hde
+  exact ha ((h2 _ d (h5 k d hk)).2.2.2 _ (h5 j d hj))
 
-/-- every state the driver's replay of a harness schedule (feed / release / get events, each
-followed by quiescence) passes through is a state of the interleaving machine under some
-schedule — so the theorems above apply to everything the correspondence compares with. -/
-theorem replay_is_run (r r' : Replay) (e : Ev)
-    (h : r.st = run true parity init r.sched.reverse) (he : applyEv true r e = some r') :
-    r'.st = run true parity init r'.sched.reverse :=
-  applyEv_run true r r' e h he
+/-- an entry, once there, is never replaced: "at every time" -/
+theorem entry_is_stable (who : Nat → Caller) (cr : Nat → Bool) (sched more : List Nat) (a d : Nat)
+    (h : (run true who cr init sched).published a = some d) :
+    (run true who cr init (sched ++ more)).published a = some d := by
+  rw [run_append]
+  exact run_published_mono who cr _ more (inv_run who cr init sched (inv_init who cr)) a d h
 
-theorem replay_sound (evs : List Ev) (r : Replay) (hr : r.st = run true parity init r.sched.reverse) :
-    ∀ snap, some snap ∈ replay true r evs → snapOk snap = true := by
-  induction evs generalizing r with
-  | nil => intro snap h; simp [replay] at h
-  | cons e es ih =>
-    intro snap h
-    simp only [replay] at h
-    cases he : applyEv true r e with
-    | none => simp [he] at h
-    | some r' =>
-      have hr' := applyEv_run true r r' e hr he
-      simp only [he, List.mem_cons, Option.some.injEq] at h
-      rcases h with h | h
-      · subst h
-        exact phase_snapOk r' (hr' ▸ phase_run parity init _ (phase_init parity))
-      · exact ih r' hr' snap h
+/-- "receives the same object at every time": whatever two callers for the same address
+obtained, at whatever two moments of a run (the second `more` steps after the first), they hold
+the same object — the entry of the address at both moments. -/
+theorem same_object_at_every_time (who : Nat → Caller) (cr : Nat → Bool) (sched more : List Nat) (j k d e : Nat)
+    (hj : (run true who cr init sched).pc j = .done d ∨ (run true who cr init sched).pc j = .got d)
+    (hk : (run true who cr init (sched ++ more)).pc k = .done e ∨ (run true who cr init (sched ++ more)).pc k = .got e)
+    (ha : (who j).addr = (who k).addr) :
+    d = e ∧ (run true who cr init sched).published (who j).addr = some d ∧
+      (run true who cr init (sched ++ more)).published (who j).addr = some d := by
+  have pj := (per_address_single_device who cr sched).2.2.2.2.1 j d hj
+  have pk := (per_address_single_device who cr (sched ++ more)).2.2.2.2.1 k e hk
+  have pj' := entry_is_stable who cr sched more _ d pj
+  rw [← ha, pj'] at pk
+  cases pk
+  exact ⟨rfl, pj, pj'⟩
 
-/-- **C10.holds**: for every harness schedule, every snapshot the model shows satisfies the
-statement's predicate `snapOk` (the same predicate the driver evaluates on what the
-implementation showed). -/
-theorem holds (evs : List Ev) : ∀ snap, some snap ∈ replay true replay0 evs → snapOk snap = true :=
-  replay_sound evs replay0 rfl
+/-- "that object receives every frame": in every reachable state every frame consumer can
+still finish within five moves (at most two to run a foreign holder out of the lock, then
+acquire, class loading, publish) — and then its frame has been handled by the entry of its
+address, or, iff its address has no device class, dropped.  Nothing a schedule does can leave a
+frame stuck or route it to another object. -/
+theorem always_handleable (who : Nat → Caller) (cr : Nat → Bool) (sched : List Nat) (j : Nat)
+    (hk : (who j).kind = .entry) :
+    ∃ more : List Nat, more.length ≤ 5 ∧
+      ((∃ d, (run true who cr init (sched ++ more)).pc j = .done d ∧
+            (run true who cr init (sched ++ more)).published (who j).addr = some d ∧
+            (j, d) ∈ (run true who cr init (sched ++ more)).handled) ∨
+       ((run true who cr init (sched ++ more)).pc j = .failed ∧ cr (who j).addr = false)) := by
+  have h0 := inv_run who cr init sched (inv_init who cr)
+  obtain ⟨m1, l1, hl1, _⟩ := free_lock who cr _ h0 j
+  have h1 := inv_run who cr _ m1 h0
+  obtain ⟨m2, l2, hfin⟩ := finish_own who cr _ h1 j hk hl1
+  refine ⟨m1 ++ m2, by simp; omega, ?_⟩
+  have hinv := inv_run who cr init (sched ++ (m1 ++ m2)) (inv_init who cr)
+  have e : run true who cr init (sched ++ (m1 ++ m2)) = run true who cr (run true who cr (run true who cr init sched) m1) m2 := by
+    rw [run_append, run_append]
+  rw [e] at hinv ⊢
+  rcases hfin with ⟨d, hd⟩ | hf
+  · exact .inl ⟨d, hd, hinv.holds j d (.inl hd), hinv.doneIn j d hd⟩
+  · exact .inr ⟨hf, hinv.failedOk j hf⟩
+
+/-- every state the driver's replay of a harness schedule passes through is a state of the
+interleaving machine under the schedule it recorded — so the theorems above apply to
+everything the correspondence compares with — and it is quiescent. -/
+theorem replay_is_run (fa ga : List Nat) (cr : Nat → Bool) (evs : List Ev) (r : Replay)
+    (h : runEvs (whoPar fa ga) cr replay0 evs = some r) :
+    r.st = run true (whoPar fa ga) cr init r.sched.reverse ∧ quiet true (whoPar fa ga) cr r = true := by
+  obtain ⟨a, b, _, _⟩ := runEvs_spec (whoPar fa ga) cr evs replay0 r (rinv_replay0 _ cr) (quiet_replay0 _ cr) h
+  exact ⟨a.isRun, b⟩
+
+/-- **C10.holds**: for every harness schedule that the machine accepts, the snapshot it shows
+satisfies the statement's per-instant predicate `snapOk` (the same predicate the driver
+evaluates on what the implementation showed) — for every prefix of the schedule, since a
+prefix of an accepted schedule is an accepted schedule. -/
+theorem holds (cr : Nat → Bool) (fa ga : List Nat) (evs : List Ev) (r : Replay)
+    (h : runEvs (whoPar fa ga) cr replay0 evs = some r) : snapOk fa ga (observe r) = true := by
+  obtain ⟨a, b, _, _⟩ := runEvs_spec (whoPar fa ga) cr evs replay0 r (rinv_replay0 _ cr) (quiet_replay0 _ cr) h
+  exact quiet_snapOk fa ga cr r a b
+
+/-- **final_ok**: a COMPLETE schedule — the machine accepted all of it (every settle reached a
+fixpoint: no caller other than one waiting for the class loading can move) and no class
+loading is pending at the end — ends in a snapshot that satisfies `finalOk`: every fed frame of
+an address with a device class has been handled (by the entry of its address, once), frames
+of other addresses are dropped, every get() for an address that has an entry has returned. -/
+theorem final_ok (cr : Nat → Bool) (evs : List Ev) (r : Replay)
+    (h : runEvs (whoPar (frameAddrs evs) (getAddrs evs)) cr replay0 evs = some r)
+    (hheld : (observe r).held = 0) :
+    finalOk (frameAddrs evs) (getAddrs evs) cr (observe r) = true := by
+  obtain ⟨a, b, c, d⟩ := runEvs_spec _ cr evs replay0 r (rinv_replay0 _ cr) (quiet_replay0 _ cr) h
+  exact quiet_finalOk _ _ cr r a b (by simpa [replay0] using c) (by simpa [replay0] using d) hheld
 
 /-- the model can tell the difference: the SAME machine without the lock (`step false`, the
-code before fix 9a3d4ee) admits a schedule with two creations, two set-ups, two consumers
-holding different objects and the name dispatched twice. -/
+code before fix 9a3d4ee) admits a schedule with two creations for one address, two set-ups,
+two consumers holding different objects and the name dispatched twice. -/
 theorem unlocked_counterexample :
     ∃ sched : List Nat,
-      let s := run false (fun _ => .entry) init sched
-      s.created = 2 ∧ s.setups = 2 ∧ s.pc 0 = .done 0 ∧ s.pc 1 = .done 1 ∧
-        s.dispatched = [1, 0] ∧ s.handled = [(1, 1), (0, 0)] :=
+      let s := run false (fun _ => ⟨.entry, 69⟩) (fun _ => true) init sched
+      s.createdFor 69 = 2 ∧ s.setupsFor 69 = 2 ∧ s.pc 0 = .done 0 ∧ s.pc 1 = .done 1 ∧
+        s.dispatched = [(69, 1), (69, 0)] ∧ s.handled = [(1, 1), (0, 0)] :=
   ⟨[0, 1, 0, 1, 0, 1], by decide⟩
+
+/-- a device class that cannot be loaded (address 86): the frame is dropped, the lock is free
+again, nothing is published, and the next address is served normally -/
+example :
+    let who : Nat → Caller := fun j => if j = 0 then ⟨.entry, 86⟩ else ⟨.entry, 69⟩
+    let s := run true who (fun a => a != 86) init [0, 1, 0, 1, 1, 1]
+    s.pc 0 = .failed ∧ s.pc 1 = .done 0 ∧ s.published 86 = none ∧ s.published 69 = some 0 ∧
+      s.lock = none ∧ s.createdFor 86 = 0 := by decide
 
 /-- … and the harness-level replay shows it too: three frames fed while the class loading is
 pending give three pending imports without the lock (one with it) -/
-example : (replay false replay0 [.feed 3]).map (Option.map (·.held)) = [some 3] := by decide
-example : (replay true replay0 [.feed 3]).map (Option.map (·.held)) = [some 1] := by decide
+example : (replay false (fun _ => true) [.feed 69 3]).map (Option.map (·.held)) = [some 3] := by decide
+example : (replay true (fun _ => true) [.feed 69 3]).map (Option.map (·.held)) = [some 1] := by decide
 
-/-- non-vacuity of `single_device`: the same schedule under the lock creates one device and
-both consumers end up with it -/
-example : let s := run true (fun _ => .entry) init [0, 1, 0, 1, 0, 1]
-    s.created = 1 ∧ s.pc 0 = .done 0 ∧ s.pc 1 = .done 0 ∧ s.handled = [(1, 0), (0, 0)] := by decide
+/-- non-vacuity of `holds` / `final_ok`: two ecoMAX frames, an ecoSTER frame and a frame from an
+address without a device class, a get('ecoster') while the first class loading is pending,
+three releases: the schedule is accepted, complete, and its last snapshot is this one — two
+objects, one per address, the ECONET frame (index 3) dropped, the get() answered with the
+ecoSTER object -/
+example :
+    let evs : List Ev := [.feed 69 2, .feed 81 1, .feed 86 1, .get 81, .release, .release, .release]
+    (replay true (fun a => a == 69 || a == 81) evs).getLast? =
+      some (some { held := 0, created := 2, setups := 2, published := [(69, 0), (81, 1)],
+                   dispatched := [(69, 0), (81, 1)], handled := [(0, 0), (1, 0), (2, 1)], gets := [some 1] }) ∧
+    spec (frameAddrs evs) (getAddrs evs) (fun a => a == 69 || a == 81)
+      ((replay true (fun a => a == 69 || a == 81) evs).filterMap id) = true := by decide +kernel
 
-/-- non-vacuity of `holds`: two frames, a get() while the class loading is pending, release,
-a third frame — the last snapshot shows three handled frames and the get() result -/
-example : (replay true replay0 [.feed 2, .get, .release, .feed 1]).getLast? =
-    some (some { held := 0, created := 1, setups := 1, published := some 0, dispatched := [0],
-                 handled := [(0, 0), (1, 0), (2, 0)], gets := [some 0] }) := by decide
-example : spec 3 ((replay true replay0 [.feed 2, .get, .release, .feed 1]).filterMap id) = true := by decide
 /-- the predicate is not trivially true: the unlocked replay fails it -/
-example : spec 3 ((replay false replay0 [.feed 3, .release, .release, .release]).filterMap id) = false := by decide
+example :
+    let evs : List Ev := [.feed 69 3, .release, .release, .release]
+    spec (frameAddrs evs) (getAddrs evs) (fun _ => true) ((replay false (fun _ => true) evs).filterMap id) = false := by
+  decide +kernel
+
 /-- a release with no class loading pending is not an accepted schedule -/
-example : replay true replay0 [.feed 1, .release, .release] ≠ [] ∧
-    (replay true replay0 [.feed 1, .release, .release]).getLast? = some none := by decide
+example : (replay true (fun _ => true) [.feed 69 1, .release, .release]).getLast? = some none := by decide +kernel
 
 end PlumVerif.C10
